@@ -292,7 +292,7 @@ def norm_copy(doc):
     return copy.deepcopy(doc)
 
 
-def option_vectors(ctx) -> list[dict]:
+def option_vectors(ctx, extra=None) -> list[dict]:
     vecs = []
     for bits in itertools.product([False, True], repeat=6):
         o = {}
@@ -302,7 +302,7 @@ def option_vectors(ctx) -> list[dict]:
         o["strategy"] = bits[5]
         vecs.append(o)
     r = ctx.rng
-    extra = ctx.budget(16, 150)
+    extra = extra or ctx.budget(16, 150)
     for _ in range(extra):              # explicit False / other values
         o = {name: r.choice([None, True, False]) for name in ("omit_none", "omit_default", "serialize_by_alias", "namedtuple_as_dict")}
         o["no_copy_collections"] = r.choice([None, "empty", "list", "listdict"])
@@ -311,12 +311,12 @@ def option_vectors(ctx) -> list[dict]:
     return vecs
 
 
-def codec_part(ctx: vlib.Ctx):
+def codec_part(ctx: vlib.Ctx, extra=None):
     r = ctx.rng
     mod = new_module()
     excluded = 0
     try:
-        vecs = option_vectors(ctx)
+        vecs = option_vectors(ctx, extra)
         shapes = ["Plain", "Nested", "Mixin"]
         nvals = ctx.budget(1, 3)
         for opts in vecs:
